@@ -198,6 +198,7 @@ type world struct {
 	view         map[int64]int // subscriber's multiset of live logs
 	staleAllowed bool          // a SetHead / restart left head block != head header at some point
 	shStale      map[int]int   // tx -> height of a lookup entry left behind by SetHead
+	shReported   map[int]bool
 }
 
 func (w *world) buildBlocks() {
@@ -449,8 +450,10 @@ func logBlock(x int64) int { return int(x / (4096 * 64)) }
 // recorded ones, each with its stable id and only when its mechanism has been verified
 // on this very operation:
 //
-//	C38-stale-canon-above-head-after-sethead  canonical entries above the head header that are
-//	    not descendants of it, after an earlier SetHead/restart left head block != head header
+//	C38-linked-canon-above-head-header  canonical entries above the head header, all descendants
+//	    of it, after an earlier SetHead/restart left head block != head header (entries that
+//	    are NOT descendants were C38-stale-canon-above-head-after-sethead, repaired by
+//	    337872da5f, and are a plain failure again)
 //	C38-setcanonical-reemits-logs   logs of a block that was canonical before the operation and
 //	    still is are emitted again (SetCanonical / re-execution of a canonical block)
 //	C38-known-reimport-silent       blocks stored with state are re-adopted by InsertChain
@@ -486,15 +489,18 @@ func (w *world) oracle(e evs, op opInfo, res *Result) (real, known []string) {
 		}
 		prev = h
 	}
+	linkedOnly := stale > 0 && unlinked == 0 && w.staleAllowed
 	if stale > 0 {
 		switch {
 		case !w.staleAllowed:
 			addReal("canonical entry above the head header")
 		case unlinked > 0:
-			addKnown("C38-stale-canon-above-head-after-sethead", "%d canonical entries above head header #%d, %d of them not linked to it", stale, headNum, unlinked)
+			// repaired by 337872da5f (writeHeadBlock drops the markers of the abandoned chain)
+			addReal("%d canonical entries above head header #%d, %d of them not linked to it", stale, headNum, unlinked)
 		default:
-			// leftovers of the same chain above a head header that writeHeadBlock pulled down
-			res.Tags = append(res.Tags, "linked-canon-above-head-header")
+			// leftovers of the head's own chain above a head header that writeHeadBlock pulled
+			// down (SetHead onto a block without state, then re-import of the same chain)
+			addKnown("C38-linked-canon-above-head-header", "%d canonical entries above head header #%d, all descendants of it", stale, headNum)
 		}
 	}
 	if cb.Hash() != ch.Hash() {
@@ -530,8 +536,8 @@ func (w *world) oracle(e evs, op opInfo, res *Result) (real, known []string) {
 		n, isCanon := where[t]
 		if tx != nil {
 			if !isCanon || int(bnum) != n || bh != w.blocks[chain[n]].Hash() || tx.Hash() != h {
-				if unlinked > 0 && w.staleAllowed && int(bnum) > headNum {
-					addKnown("C38-stale-canon-above-head-after-sethead", "tx %d resolves to the stale canonical block #%d above head #%d", t, bnum, headNum)
+				if linkedOnly && int(bnum) > headNum {
+					addKnown("C38-linked-canon-above-head-header", "tx %d resolves to block #%d above head #%d", t, bnum, headNum)
 				} else {
 					addReal("tx %d resolves to non-canonical block #%d", t, bnum)
 				}
@@ -541,26 +547,30 @@ func (w *world) oracle(e evs, op opInfo, res *Result) (real, known []string) {
 		}
 		// database level: an entry points to the canonical block holding the tx
 		ent := rawdb.ReadTxLookupEntry(w.db, h)
-		if ent == nil || (isCanon && int(*ent) == n) {
+		if ent == nil || w.shStale[t] != int(*ent) {
 			delete(w.shStale, t)
-			continue
+			delete(w.shReported, t)
 		}
-		fresh := false
-		if op.kind == 3 && int(*ent) < len(op.before) && int(*ent) > headNum {
-			// the entry named a canonical block that this SetHead has just removed
+		if ent != nil && op.kind == 3 && int(*ent) < len(op.before) && int(*ent) > bn {
+			// SetHead has just put the block this entry names above the new head block (deleted
+			// it, or left only its header canonical) without touching the entry
 			for _, bt := range w.cs.byID[op.before[*ent]].txs {
-				if bt == t && w.shStale[t] != int(*ent) {
-					w.shStale[t], fresh = int(*ent), true
+				if bt == t {
+					w.shStale[t] = int(*ent)
 				}
 			}
 		}
+		if ent == nil || (isCanon && int(*ent) == n) {
+			continue
+		}
 		switch at, ok := w.shStale[t]; {
 		case ok && at == int(*ent):
-			if fresh { // reported once, at the SetHead that leaves it behind
-				addKnown("C38-sethead-stale-lookups", "lookup entry of tx %d still points to #%d, removed by SetHead", t, *ent)
+			if !w.shReported[t] { // reported once, when the entry stops naming a canonical block
+				w.shReported[t] = true
+				addKnown("C38-sethead-stale-lookups", "lookup entry of tx %d still points to #%d, whose block SetHead put above the head block", t, *ent)
 			}
-		case unlinked > 0 && w.staleAllowed && int(*ent) > headNum:
-			addKnown("C38-stale-canon-above-head-after-sethead", "lookup entry of tx %d points to the stale canonical block #%d above head #%d", t, *ent, headNum)
+		case linkedOnly && int(*ent) > headNum:
+			addKnown("C38-linked-canon-above-head-header", "lookup entry of tx %d points to block #%d above head #%d", t, *ent, headNum)
 		default:
 			addReal("lookup entry of tx %d points to #%d, which does not hold it canonically", t, *ent)
 		}
@@ -662,7 +672,7 @@ func (w *world) oracle(e evs, op opInfo, res *Result) (real, known []string) {
 
 func run(c Sx) Result {
 	cs := parseCase(c)
-	w := &world{cs: cs, db: rawdb.NewMemoryDatabase(), gspec: genesisSpec(), view: map[int64]int{}, shStale: map[int]int{}}
+	w := &world{cs: cs, db: rawdb.NewMemoryDatabase(), gspec: genesisSpec(), view: map[int64]int{}, shStale: map[int]int{}, shReported: map[int]bool{}}
 	// The tx indexer runs (TxLookupLimit = 0) over a database marked as fully indexed
 	// (tail 0): its background pass then has nothing to write, so every lookup entry
 	// observed is one maintained synchronously by writeHeadBlock / reorg.  (With the tail
@@ -776,7 +786,7 @@ func run(c Sx) Result {
 	// prefix can never hide one of them
 	// (and the rarer recorded deviations before the frequent ones, so each gets listed)
 	prio := func(m string) int {
-		for i, id := range []string{"C38-stale-canon", "C38-setcanonical", "C38-known-reimport", "C38-sethead-no-removed", "C38-sethead-stale"} {
+		for i, id := range []string{"C38-linked-canon", "C38-setcanonical", "C38-known-reimport", "C38-sethead-no-removed", "C38-sethead-stale"} {
 			if strings.HasPrefix(m, id) {
 				return i
 			}
